@@ -82,6 +82,16 @@ func vfCheckSilent(sc *vfSrvConn, peerClosedFirst bool) (vfSilenceReport, string
 	if hd := first.T.Sub(first.At); hd < 29*time.Second || hd > 31*time.Second {
 		return rep, fmt.Sprintf("VIOL[c03-handshake-timeout]: handshake deadline armed %v after accept, want 30s", hd)
 	}
+	// Whatever the peer sends, the time-out armed at accept must not move: every
+	// deadline call except the final one (the seeded close time) has to name the
+	// same instant or an earlier one.  (The harness lets no real time pass between
+	// segments, so a time-out that is re-armed relative to "now" shows up as an
+	// instant that is later by the few microseconds the segments are apart.)
+	for i := 1; i < len(sdl)-1; i++ {
+		if sdl[i].T.IsZero() || sdl[i].T.After(first.T) {
+			return rep, fmt.Sprintf("VIOL[c03-deadline-extended]: deadline call %d of %d (%s, after %d reads) moves the time-out from accept+%v to accept+%v: peer activity extends the connection beyond its fixed close time", i+1, len(sdl), sdl[i].Kind, sdl[i].ReadsBefore, first.T.Sub(first.At), sdl[i].T.Sub(first.At))
+		}
+	}
 	last := sdl[len(sdl)-1]
 	if last.T.IsZero() {
 		return rep, "VIOL[c03-deadline-cleared]: server cleared its deadline on a connection that must be rejected"
